@@ -64,27 +64,29 @@ Definition vreads (ops : list vop) (c : vcall) : list vloc := vc_in c ++ vc_out 
 Definition vwrites (ops : list vop) (c : vcall) : list vloc := vc_out c ++ map LStatic (static_writes ops (vc_name c)).
 
 Definition owned_by (i : nat) (x : vloc) : Prop := match x with LObj k _ => k = i | LStatic _ => False end.
-(* the hypothesis of the property: thread i operates on ITS objects, through operations accepted by the decider *)
+Definition region (i : nat) (x : vloc) : Prop := match x with LObj k _ => k = i | LStatic _ => True end.
+(* the hypothesis of the property: thread i operates on ITS objects, through operations accepted by the decider.  Operands that are
+   only READ (vc_in) may also be shared constants (Integer::one, a constant polynomial every thread reads): modelled as LStatic
+   locations, which no accepted operation writes; operands that are written (vc_out) are owned by the calling thread *)
 Definition independent (ops : list vop) (ts : list (list vcall)) : Prop :=
   forall i c, In c (nth i ts []) ->
-    accepted ops (vc_name c) = true /\ (forall x, In x (vc_in c) \/ In x (vc_out c) -> owned_by i x).
-
-Definition region (i : nat) (x : vloc) : Prop := match x with LObj k _ => k = i | LStatic _ => True end.
+    accepted ops (vc_name c) = true /\ (forall x, In x (vc_in c) -> region i x) /\ (forall x, In x (vc_out c) -> owned_by i x).
 
 Lemma independent_confined : forall ops ts, independent ops ts ->
   confined vloc vcall (vreads ops) (vwrites ops) region ts.
 Proof.
   intros ops ts H. split.
-  - intros i c x Hc Hx. destruct (H i c Hc) as [Hacc Hown]. unfold vreads, vwrites in Hx.
+  - intros i c x Hc Hx. destruct (H i c Hc) as [Hacc [Hin Hout]]. unfold vreads, vwrites in Hx.
     rewrite (accepted_no_static_write _ _ Hacc) in Hx. cbn [map] in Hx. rewrite app_nil_r in Hx.
-    destruct x as [k nm|s]; [|exact I]. cbn.
-    assert (In (LObj k nm) (vc_in c) \/ In (LObj k nm) (vc_out c)) as Hio.
-    { destruct Hx as [Hx|Hx]; [|tauto]. apply in_app_or in Hx. destruct Hx as [Hx|Hx]; [tauto|].
-      apply in_app_or in Hx. destruct Hx as [Hx|Hx]; [tauto|]. apply in_map_iff in Hx. destruct Hx as [s [E _]]. discriminate. }
-    exact (Hown _ Hio).
-  - intros i j c x Hij Hc Hx. destruct (H j c Hc) as [Hacc Hown]. unfold vwrites in Hx.
+    assert (forall y, In y (vc_out c) -> region i y) as Hout'.
+    { intros y Hy. specialize (Hout y Hy). destruct y; cbn in *; [exact Hout|exact I]. }
+    destruct Hx as [Hx|Hx]; [|exact (Hout' _ Hx)].
+    apply in_app_or in Hx. destruct Hx as [Hx|Hx]; [exact (Hin _ Hx)|].
+    apply in_app_or in Hx. destruct Hx as [Hx|Hx]; [exact (Hout' _ Hx)|].
+    apply in_map_iff in Hx. destruct Hx as [s [E _]]. subst x. exact I.
+  - intros i j c x Hij Hc Hx. destruct (H j c Hc) as [Hacc [_ Hout]]. unfold vwrites in Hx.
     rewrite (accepted_no_static_write _ _ Hacc) in Hx. cbn [map] in Hx. rewrite app_nil_r in Hx.
-    specialize (Hown x (or_intror Hx)). destruct x as [k nm|s]; cbn in *; [congruence|destruct Hown].
+    specialize (Hout x Hx). destruct x as [k nm|s]; cbn in *; [congruence|destruct Hout].
 Qed.
 
 Section Values.
@@ -141,6 +143,17 @@ Proof.
   unfold value_offenders in Hnil. apply (in_map vo_name) in Hi. rewrite Hnil in Hi. destruct Hi.
 Qed.
 
+(* the same relative to a decided list of offenders L (the unchanged tree may contain known findings: they are named in L) *)
+Definition OffendersListAccepted_stmt : Prop :=
+  forall ops L n o, value_offenders ops = L -> find_vop ops n = Some o -> vo_documented o = false -> ~ In (vo_name o) L -> accepted ops n = true.
+Lemma offenders_list_accepted : OffendersListAccepted_stmt.
+Proof.
+  intros ops L n o HL Hf Hd Hn. unfold accepted. rewrite Hf.
+  apply find_some in Hf. destruct Hf as [Hin _].
+  destruct (vop_rf_b o) eqn:E; [reflexivity|]. exfalso. apply Hn. rewrite <- HL. unfold value_offenders.
+  apply in_map. apply filter_In. split; [exact Hin|]. rewrite E, Hd. reflexivity.
+Qed.
+
 (* ---- the hypothesis "accepted" is needed: a constructor that switches a process-wide mode around one step and restores it
    (sequentially invisible) against a thread that only adds its own numbers.  flags = 1: results are reduced. *)
 Section ModeSwitch.
@@ -179,15 +192,15 @@ End ModeSwitch.
 (* satisfiability of the hypotheses of values_concurrent: two threads, each adding its own numbers with an accepted operation *)
 Section Example.
   Definition ex_ops : list vop := [ {| vo_name := "add"; vo_documented := false; vo_effects := [RGlobal "flags"] |} ].
-  Definition ex_call (i : nat) : vcall := {| vc_name := "add"; vc_in := [LObj i "a"; LObj i "b"]; vc_out := [LObj i "r"] |}.
+  Definition ex_call (i : nat) : vcall := {| vc_name := "add"; vc_in := [LObj i "a"; LStatic "Integer::one"]; vc_out := [LObj i "r"] |}.   (* every thread reads the shared constant *)
   Definition ex_prog : list (list vcall) := [[ex_call 0; ex_call 0]; [ex_call 1]].
   Definition Example_independent_stmt : Prop := independent ex_ops ex_prog /\ value_offenders ex_ops = [].
   Lemma example_independent : Example_independent_stmt.
-  Proof.
-    split; [|reflexivity]. intros i c Hc.
-    destruct i as [|[|i]]; cbn in Hc.
-    - destruct Hc as [Hc|[Hc|[]]]; subst c; (split; [reflexivity|]); cbn; intros x Hx; intuition (subst; reflexivity).
-    - destruct Hc as [Hc|[]]; subst c; (split; [reflexivity|]); cbn; intros x Hx; intuition (subst; reflexivity).
-    - destruct i; destruct Hc.
-  Qed.
+Proof.
+  split; [|reflexivity]. intros i c Hc.
+  destruct i as [|[|i]]; cbn in Hc.
+  - destruct Hc as [Hc|[Hc|[]]]; subst c; (split; [reflexivity|]); split; cbn; intros x Hx; intuition (subst; cbn; auto).
+  - destruct Hc as [Hc|[]]; subst c; (split; [reflexivity|]); split; cbn; intros x Hx; intuition (subst; cbn; auto).
+  - destruct i; destruct Hc.
+Qed.
 End Example.
